@@ -97,7 +97,7 @@ func tagsToText(tags map[string]interface{}) []string {
 func tagToText(tag string, val interface{}) string {
 	switch val := val.(type) {
 	case byte:
-		return tag + ":A:" + string(val)
+		return tag + ":A:" + string([]byte{val})
 	case int:
 		return tag + ":i:" + strconv.Itoa(val)
 	case float64:
